@@ -17,6 +17,11 @@ type Fault struct {
 	Kind string `json:"kind"` // crash | werr | syncerr | openerr | truncerr | delerr
 	At   int    `json:"at"`
 	Arg  int    `json:"arg,omitempty"` // 0..255: fraction of an in-flight write that reaches the file
+	// Power: the stop is a power loss, not a process death: of every flat file
+	// only the bytes covered by a completed Sync survive (the key-value store's
+	// own files are kept as written - the operating system may write back in
+	// any order, and "metadata ahead of block data" is the dangerous one).
+	Power bool `json:"power,omitempty"`
 }
 
 var errInjected = errors.New("simulated I/O error")
@@ -79,7 +84,36 @@ func (d *simDisk) stop() {
 	if err := copyTree(d.dir, d.snapDir); err != nil {
 		panic(fmt.Sprintf("harness: snapshot failed: %v", err))
 	}
+	if d.crash != nil && d.crash.Power {
+		for num, n := range d.length {
+			if s := d.synced[num]; s < n {
+				p := filepath.Join(d.snapDir, fmt.Sprintf("%09d.fdb", num))
+				if st, err := os.Stat(p); err == nil && st.Size() > s {
+					os.Truncate(p, s)
+					d.fired = append(d.fired, "power-loss-dropped-unsynced-bytes")
+				}
+			}
+		}
+		d.fired = append(d.fired, "crash-is-power-loss")
+	}
 	panic(crashSentinel{})
+}
+
+// noteWrite / noteSync keep the durability model of the flat files.
+func (d *simDisk) noteLen(num uint32, f ffldb.VerifFiler) {
+	if d.length == nil {
+		d.length, d.synced = map[uint32]int64{}, map[uint32]int64{}
+	}
+	if _, ok := d.length[num]; !ok {
+		// first contact in this process life: what is there is on disk
+		n := int64(0)
+		if p := filepath.Join(d.dir, fmt.Sprintf("%09d.fdb", num)); true {
+			if st, err := os.Stat(p); err == nil {
+				n = st.Size()
+			}
+		}
+		d.length[num], d.synced[num] = n, n
+	}
 }
 
 func copyTree(src, dst string) error {
@@ -127,6 +161,7 @@ func (d *simDisk) wrap(fileNum uint32, f ffldb.VerifFiler, write bool) (ffldb.Ve
 			d.fired = append(d.fired, "openerr")
 			return nil, errInjected
 		}
+		d.noteLen(fileNum, f)
 	}
 	return &simFile{d: d, num: fileNum, f: f, write: write}, nil
 }
@@ -165,6 +200,7 @@ func (s *simFile) WriteAt(p []byte, off int64) (int, error) {
 		n := len(p) * crash.Arg / 256
 		if n > 0 {
 			s.f.WriteAt(p[:n], off)
+			s.wrote(off, n)
 			s.d.fired = append(s.d.fired, "crash@write-torn")
 		} else {
 			s.d.fired = append(s.d.fired, "crash@write")
@@ -179,11 +215,21 @@ func (s *simFile) WriteAt(p []byte, off int64) (int, error) {
 		n := len(p) * io.Arg / 256
 		if n > 0 {
 			s.f.WriteAt(p[:n], off)
+			s.wrote(off, n)
 		}
 		s.d.fired = append(s.d.fired, "werr")
 		return n, errInjected
 	}
-	return s.f.WriteAt(p, off)
+	n, err := s.f.WriteAt(p, off)
+	s.wrote(off, n)
+	return n, err
+}
+
+func (s *simFile) wrote(off int64, n int) {
+	s.d.noteLen(s.num, s.f)
+	if end := off + int64(n); n > 0 && end > s.d.length[s.num] {
+		s.d.length[s.num] = end
+	}
 }
 
 func (s *simFile) ReadAt(p []byte, off int64) (int, error) { return s.f.ReadAt(p, off) }
@@ -198,7 +244,15 @@ func (s *simFile) Truncate(size int64) error {
 		s.d.fired = append(s.d.fired, "truncerr")
 		return errInjected
 	}
-	return s.f.Truncate(size)
+	err := s.f.Truncate(size)
+	if err == nil {
+		s.d.noteLen(s.num, s.f)
+		s.d.length[s.num] = size
+		if s.d.synced[s.num] > size {
+			s.d.synced[s.num] = size
+		}
+	}
+	return err
 }
 
 func (s *simFile) Sync() error {
@@ -211,7 +265,12 @@ func (s *simFile) Sync() error {
 		s.d.fired = append(s.d.fired, "syncerr")
 		return errInjected
 	}
-	return s.f.Sync()
+	err := s.f.Sync()
+	if err == nil {
+		s.d.noteLen(s.num, s.f)
+		s.d.synced[s.num] = s.d.length[s.num]
+	}
+	return err
 }
 
 // Close is not an event: it changes nothing durable. It must keep working after
